@@ -106,7 +106,42 @@ func (s verifStoreObj) GetLogicalAuthHandler(name string) auth.AuthHandler {
 	}
 	return nil
 }
-func (verifStoreObj) GetValidator(name string) validate.Validator { return nil }
+func (verifStoreObj) GetValidator(name string) validate.Validator {
+	if v, ok := verifValidators[name]; ok {
+		return v
+	}
+	return nil
+}
+
+// credential validators handed out by the fake store (none unless a harness installs them)
+var verifValidators map[string]*verifValidator
+
+// verifValidator: a configured credential validator; a request for the value "bad" is refused as malformed,
+// the value "dup" as a duplicate, anything else is accepted (validated at once when a response is given).
+type verifValidator struct{ requests int }
+
+func (*verifValidator) Init(jsonconf string) error { return nil }
+func (*verifValidator) IsInitialized() bool        { return true }
+func (*verifValidator) PreCheck(cred string, params map[string]interface{}) (string, error) {
+	return "", nil
+}
+func (v *verifValidator) Request(user types.Uid, cred, lang, resp string, tmpToken []byte) (bool, error) {
+	v.requests++
+	switch cred {
+	case "bad":
+		return false, types.ErrMalformed
+	case "dup":
+		return false, types.ErrDuplicate
+	}
+	return true, nil
+}
+func (*verifValidator) ResetSecret(cred, scheme, lang string, tmpToken []byte, params map[string]interface{}) error {
+	return nil
+}
+func (*verifValidator) Check(user types.Uid, resp string) (string, error) { return "", nil }
+func (*verifValidator) Remove(user types.Uid, value string) error         { return nil }
+func (*verifValidator) Delete(user types.Uid) error                       { return nil }
+func (*verifValidator) TempAuthScheme() (string, error)                   { return "", nil }
 func (verifStoreObj) GetMediaHandler() media.Handler             { return verifMediaHandler }
 func (verifStoreObj) UseMediaHandler(name, config string) error  { return nil }
 
